@@ -106,6 +106,19 @@ def attach_clone(prop="C13"):
         _DEPTH[0] += 1
         try:
             res = orig(self, *a, **k)
+        except RecursionError:
+            raise
+        except Exception as e:
+            # a copy was asked for and none came back
+            try:
+                sound = not S.audit(self if self.parent is None else S.root_of(self), expr=False)
+                if sound:
+                    core.REC.ev()
+                    core.REC.violation(prop, f"clone/raises/{type(e).__name__}", "clone raised on a well-linked tree",
+                                       {"tree": S.to_json(S.shadow(self)), "summary": f"clone() of '{S.text_of(self)}' raised {type(e).__name__}: {str(e)[:80]}"})
+            except Exception:
+                pass
+            raise
         finally:
             _DEPTH[0] -= 1
         rec = core.REC
